@@ -63,7 +63,7 @@ func (w *namedWorld) gate(point string) {
 	case strings.HasPrefix(point, "np.timer.done:"):
 		select {
 		case w.done <- strings.TrimPrefix(point, "np.timer.done:"):
-		case <-time.After(5 * time.Second):
+		case <-time.After(20 * time.Second):
 		}
 	case strings.HasPrefix(point, "np.timer:"):
 		pt := &parkedTimer{name: strings.TrimPrefix(point, "np.timer:"), release: make(chan struct{})}
@@ -195,14 +195,14 @@ func replayNamedPath(p namedPath) (res replayResult) {
 		case "GetTry":
 			n, err = get(st.ID).step()
 		case "TimerFire":
-			pt := w.takeTimer(name, 4*time.Second)
+			pt := w.takeTimer(name, 20*time.Second)
 			if pt == nil {
-				return fail(i, "infra", "", "TimerFire(%s): no close timer reached its gate within 4s", name)
+				return fail(i, "infra", "", "TimerFire(%s): no close timer reached its gate within 20s", name)
 			}
 			close(pt.release)
 			select {
 			case <-w.done:
-			case <-time.After(5 * time.Second):
+			case <-time.After(20 * time.Second):
 				return fail(i, "infra", "", "TimerFire(%s): timer goroutine did not finish", name)
 			}
 			n = note{}
